@@ -1,6 +1,6 @@
 #!/usr/bin/env python3
 """Writes meta.json into every /verif/seeded/<id>-m<k>/ and prints the markdown table for DESIGN.md §10.
-usage: tools/seeded_meta.py [matrix.tsv]"""
+usage: tools/seeded_meta.py [matrix.tsv] [robust.tsv]"""
 import json, os, re, sys
 V = os.path.dirname(os.path.dirname(os.path.abspath(__file__)))
 matrix = {}
@@ -10,11 +10,20 @@ if len(sys.argv) > 1 and os.path.exists(sys.argv[1]):
         if f[0] and f[0] != "DONE":
             matrix[f[0]] = f[1:]
 # detections observed while running tools/mutant.sh by hand (owning check, quick tier, seed 1)
+robust = {}
+if len(sys.argv) > 2 and os.path.exists(sys.argv[2]):
+    for line in open(sys.argv[2]):
+        f = line.rstrip("\n").split("\t")
+        if len(f) >= 2 and f[0] != "DONE":
+            robust[f[0]] = (f[1], f[2] if len(f) > 2 else "")
 manual = {}
 # detections that need another flavour / a later generator than the matrix run used
 extra = {
     "C17-m2": ["C17 (asan flavour only: heap-use-after-free report; the dbg differential does not see it)"],
     "C09-rev-f5e47e1": ["C09 (after the escaped-script / end-tag-name soup fragments were added; missed by the generator before that)"],
+    "C01-m3": ["C01 (after declared-encoding documents were added)"],
+    "C13-m4": ["C13 (after lookups by decoded attribute names were added)"],
+    "C03-m3": ["C03"],
 }
 rows = []
 for d in sorted(os.listdir(os.path.join(V, "seeded"))):
@@ -45,11 +54,12 @@ for d in sorted(os.listdir(os.path.join(V, "seeded"))):
         "verified": "reverse patch of the fix commit applies to HEAD, builds, and `cargo test --offline` still reports 182 passed / 0 failed (the defect predates the pinned suite)" if rev else "tools/confirm_mutant.sh: demo passes on the unmodified worktree; with the patch it builds (also with --features _integration_test,_verif_hooks), `cargo test --offline` still reports 182 passed / 0 failed, and the demo fails",
         "ran_against_checks": "tools/mutant.sh <patch> " + prop + " (quick tier, seed 1) and tools/matrix.sh (dbg flavour, all checks)",
         "detected_by": detected,
+        "owning_check_at_seeds_11_12_13": {"detections": robust[d][0], "violation_keys": robust[d][1]} if d in robust else None,
     }
     json.dump(meta, open(os.path.join(p, "meta.json"), "w"), indent=1)
     short = lines[0][:160] if lines else ""
-    rows.append((d, ", ".join(files), ", ".join(detected) if detected else "**none**"))
-print("| seeded change | files | caught by (quick tier, dbg flavour unless noted) |")
-print("|---|---|---|")
+    rows.append((d, ", ".join(files), ", ".join(detected) if detected else "**none**", robust.get(d, ("–", ""))[0]))
+print("| seeded change | files | caught by (matrix: quick tier, dbg flavour, seed 1, half volume; notes where a later strengthening or another flavour is needed) | owning check, full volume, seeds 11 / 12 / 13 |")
+print("|---|---|---|---|")
 for r in rows:
-    print(f"| {r[0]} | {r[1]} | {r[2]} |")
+    print(f"| {r[0]} | {r[1]} | {r[2]} | {r[3]} |")
